@@ -46,7 +46,8 @@ func corpus(r *core.Run, thorough bool) ([]specRef, error) {
 		}
 	}
 	// the harness' own matrix specs (parameters, bodies, security, sum types)
-	extra := map[string]string{"matrix_sum.yml": sumSpec}
+	extra := map[string]string{"matrix_sum.yml": sumSpec, "matrix_same_encoding.yml": sameEncodingSpec, "matrix_maxprops.yml": maxPropsSpec,
+		"matrix_shared_response.yml": sharedResponseSpec, "matrix_mask.yml": maskSpec}
 	for name, text := range extra {
 		p := filepath.Join(r.Scratch, name)
 		if err := os.WriteFile(p, []byte(text), 0o644); err != nil {
@@ -57,6 +58,12 @@ func corpus(r *core.Run, thorough bool) ([]specRef, error) {
 	opts := []string{"", "all", "server"}
 	var out []specRef
 	for i, f := range files {
+		if strings.HasPrefix(filepath.Base(f), "matrix_") {
+			for _, o := range opts {
+				out = append(out, specRef{ID: filepath.Base(f) + "#" + o, Path: f, Opt: o})
+			}
+			continue
+		}
 		out = append(out, specRef{ID: filepath.Base(f) + "#" + opts[i%3], Path: f, Opt: opts[i%3]})
 		if thorough {
 			out = append(out, specRef{ID: filepath.Base(f) + "#" + opts[(i+1)%3], Path: f, Opt: opts[(i+1)%3]})
@@ -64,6 +71,99 @@ func corpus(r *core.Run, thorough bool) ([]specRef, error) {
 	}
 	return out, nil
 }
+
+// several media types of one status code that share one ir.Encoding; several binary request bodies
+const sameEncodingSpec = `openapi: 3.0.3
+info: {title: t, version: "1"}
+paths:
+  /avatar:
+    get:
+      operationId: getAvatar
+      responses:
+        "200":
+          description: ok
+          content:
+            image/png: {schema: {type: string, format: binary}}
+            image/jpeg: {schema: {type: string, format: binary}}
+            image/gif: {schema: {type: string, format: binary}}
+            text/plain: {schema: {type: string}}
+            text/csv: {schema: {type: string}}
+        "404": {description: nf, content: {application/json: {schema: {type: object, properties: {msg: {type: string}}}}, application/problem+json: {schema: {type: object, properties: {title: {type: string}}}}}}
+    put:
+      operationId: putAvatar
+      requestBody:
+        content:
+          image/png: {schema: {type: string, format: binary}}
+          image/jpeg: {schema: {type: string, format: binary}}
+          application/octet-stream: {schema: {type: string, format: binary}}
+      responses:
+        "200": {description: ok}
+        "201": {description: ok}
+`
+
+// object with maxProperties whose required property is not declared first (example tests / faker)
+const maxPropsSpec = `openapi: 3.0.3
+info: {title: t, version: "1"}
+paths:
+  /z:
+    post:
+      operationId: postZ
+      requestBody: {required: true, content: {application/json: {schema: {$ref: "#/components/schemas/Zone"}}}}
+      responses:
+        "200": {description: ok, content: {application/json: {schema: {$ref: "#/components/schemas/Zone"}}}}
+components:
+  schemas:
+    Zone:
+      type: object
+      maxProperties: 3
+      minProperties: 1
+      required: [owner, ttl]
+      properties:
+        comment: {type: string}
+        id: {type: string, format: uuid}
+        ttl: {type: integer, minimum: 1}
+        owner: {type: string, minLength: 1}
+        tags: {type: array, items: {type: string}, maxItems: 3}
+`
+
+// one components.responses entry used as default in one operation and under several codes in another
+const sharedResponseSpec = `openapi: 3.0.3
+info: {title: t, version: "1"}
+paths:
+  /a:
+    get:
+      operationId: aGet
+      responses:
+        "200": {description: ok, content: {application/json: {schema: {type: string}}}}
+        default: {$ref: "#/components/responses/Err"}
+  /b:
+    get:
+      operationId: bGet
+      responses:
+        "200": {description: ok, content: {application/json: {schema: {type: string}}}}
+        "400": {$ref: "#/components/responses/Err"}
+        "404": {$ref: "#/components/responses/Err"}
+        "409": {$ref: "#/components/responses/Err"}
+        "410": {$ref: "#/components/responses/Err"}
+components:
+  responses:
+    Err: {description: err, content: {application/json: {schema: {type: object, properties: {msg: {type: string}}}}}}
+`
+
+// a JSON media type next to a mask media type, no declared headers
+const maskSpec = `openapi: 3.0.3
+info: {title: t, version: "1"}
+paths:
+  /a:
+    get:
+      operationId: getA
+      responses:
+        "200":
+          description: ok
+          content:
+            application/json: {schema: {type: object, properties: {a: {type: string}}}}
+            image/*: {schema: {type: string, format: binary}}
+`
 
 const sumSpec = `openapi: 3.0.3
 info: {title: s, version: "1"}
